@@ -500,7 +500,7 @@ theorem purge_stepFacts (hs : PurgeShape t fam addr pred t')
     · right; simp [h, Table.destId, hlook nd hnd]
     · left; simp [h]
   · -- nets
-    exact purge_nets _ hr.keys
+    exact fun _ => purge_nets _ hr.keys
   · -- idStable
     intro f n i h
     by_cases hf : f = fam
